@@ -328,6 +328,7 @@ def run(run):
         facts.drop(F)
         cfgmod.clear_cache()
     static_units.report(run, 'C13.a', 'ubitwidth')
+    static_units.report(run, 'C13.e', static_units.capacity_unit('C13.e'))
     from gen import nfamily
     nfamily.report(run, run.tier, 'C12.b')
     # the N-family obligations used here are the "bit width suffices for the state count" clause
@@ -335,6 +336,7 @@ def run(run):
     run.floor('C13.b', 20)
     run.floor('C13.c', 20)
     run.floor('C13.d', 64)
+    run.floor('C13.e', 1)
     run.explanation = (
         'bitWidth is decided for all 2^32 arguments by evaluating the extracted expression on the end points of the 33 regions '
         'its own threshold tests induce (the checker first verifies that the argument is used in threshold tests only). The '
